@@ -39,6 +39,12 @@ def c02_rmdec(R):
     m = tree.mod(FP)
     fn = tree.func(FP, "RM.pydecimal_equivalent_rounding_mode")
     dicts = [n for n in ast.walk(fn) if isinstance(n, ast.Dict)]
+    if not dicts:
+        # the table may live at module level: `return TABLE[self]`
+        for sub in (x for x in ast.walk(fn) if isinstance(x, ast.Subscript) and isinstance(x.value, ast.Name)):
+            for st in m.tree.body:
+                if isinstance(st, ast.Assign) and any(isinstance(t, ast.Name) and t.id == sub.value.id for t in st.targets) and isinstance(st.value, ast.Dict):
+                    dicts.append(st.value)
     R.need(len(dicts) == 1, "pydecimal_equivalent_rounding_mode: mapping literal not found")
     got = {}
     for k, v in zip(dicts[0].keys, dicts[0].values):
@@ -82,13 +88,15 @@ def c02_rmz3(R):
     m = tree.mod(Z3)
     fn = tree.func(Z3, "BackendZ3._convert")
     seen = {}
-    for st in walk_no_nested(fn):
-        if isinstance(st, ast.If) and isinstance(st.test, ast.Compare) and ast.unparse(st.test.left) == "obj":
-            member = (dotted(st.test.comparators[0]) or "").split(".")[-1]
-            if not member.startswith("RM_"):
-                continue
+    subject = [a.arg for a in fn.args.args if a.arg != "self"][0]
+    # the arms of the dispatch on the object, whether written as `if obj == RM.X` or as match/case
+    for vtxt, stmts in sorted(util.value_arms(fn, subject).items()):
+        member = vtxt.split(".")[-1]
+        if not member.startswith("RM_"):
+            continue
+        for st in stmts[:1]:
             ctor = [
-                (dotted(c.func) or "").split(".")[-1] for c in ast.walk(st.body[0]) if isinstance(c, ast.Call) and "Z3_mk_fpa_round" in (dotted(c.func) or "")
+                (dotted(c.func) or "").split(".")[-1] for s_ in stmts for c in ast.walk(s_) if isinstance(c, ast.Call) and "Z3_mk_fpa_round" in (dotted(c.func) or "")
             ]
             seen[member] = ctor[0] if ctor else None
             R.check(
@@ -282,7 +290,7 @@ def c02_cancel(R):
     rets = [r for r in walk_no_nested(fn) if isinstance(r, ast.Return) and r.value is not None and not (isinstance(r.value, ast.Constant))]
     R.need(rets, "fptofp_simplifier returns nothing")
     for r in rets:
-        facts = [ast.unparse(t) for t, pol in guards.guards_of(r) if pol]
+        facts = guards.holds(r)  # guard clauses (`if len(args) != 2: return None`) read as the facts they leave behind
         j = " ".join(facts)
         ok = (
             "len(args) == 2" in j
@@ -617,7 +625,7 @@ def c09_simpl(R):
     tree = R.tree
     path = "claripy/frontend/constrained_frontend.py"
     m = tree.mod(path)
-    fn = tree.func(path, "ConstrainedFrontend.simplify")
+    fn = tree.func_inlined(path, "ConstrainedFrontend.simplify")  # a predicate moved into a private helper is still the predicate
     # locals are identified by role and renamed to the names the checks below use
     roles = {}
     lcs = [st for st in fn.body if isinstance(st, ast.Assign) and isinstance(st.value, ast.ListComp) and isinstance(st.targets[0], ast.Name)]
@@ -911,7 +919,7 @@ def c10_cache(R):
     tree = R.tree
     m = tree.mod(BK)
     for name, own, other in (("is_true", "_true_cache", "_false_cache"), ("is_false", "_false_cache", "_true_cache")):
-        fn = tree.func(BK, f"Backend.{name}")
+        fn = tree.func_inlined(BK, f"Backend.{name}", exclude=("_is_true", "_is_false", "_has_true", "_has_false"))
         writes = [(a, kind, node, val) for a, kind, node, val in util.attr_writes(fn, "self") if a in (own, other)]
         R.need(len(writes) >= 2, f"Backend.{name}: memo writes not found")
         for a, kind, node, val in writes:
